@@ -640,6 +640,28 @@ func runC20(c *Ctx) {
 	}
 	// named by the property / findings
 	emit(&qPath{root: '$', parts: []qPart{{kind: 'k', name: "a"}, {kind: 'c', name: "Equal", args: []qArg{{group: &qGroup{mode: "OR", ops: []qOp{{path: &qPath{root: '$', parts: []qPart{{kind: 'k', name: "b"}}}}}}}}}}}, nil, "named")
+	// the same condition text first as a condition of a filter (its first key is a key of the elements), then as a query of its
+	// own and as the operand of a top-level group (its first key is a root field), and once more the other way round
+	for round := 0; round < 2; round++ {
+		for ci, cond := range []*qPath{
+			{root: '@', parts: []qPart{{kind: 'k', name: "x"}, {kind: 'c', name: "Greater", args: []qArg{{path: &qPath{root: '$', parts: []qPart{{kind: 'k', name: "b"}}}}}}}},
+			{root: '@', parts: []qPart{{kind: 'k', name: "y"}, {kind: 'k', name: "z"}, {kind: 'c', name: "IsNotNull"}}},
+			{root: '@', parts: []qPart{{kind: 'k', name: "k"}}},
+		} {
+			inFilter := &qPath{root: '$', parts: []qPart{{kind: 'k', name: c20Roots[ci]}, {kind: 'f', group: &qGroup{ops: []qOp{{path: cond}}}}}}
+			top := cond
+			asGroup := &qGroup{mode: "OR", ops: []qOp{{path: cond}}}
+			if round == 0 {
+				emit(inFilter, nil, "named/condition-text-in-filter-then-top-level")
+				emit(top, nil, "named/condition-text-in-filter-then-top-level")
+				emit(nil, asGroup, "named/condition-text-in-filter-then-top-level")
+			} else {
+				emit(nil, asGroup, "named/condition-text-in-filter-then-top-level")
+				emit(inFilter, nil, "named/condition-text-in-filter-then-top-level")
+				emit(top, nil, "named/condition-text-in-filter-then-top-level")
+			}
+		}
+	}
 	c.Exhaustive = true
 	n := c.scale(6000, 60000)
 	for i := 0; i < n; i++ {
